@@ -82,6 +82,9 @@ class Lengths:
         """Term for len(x) or None."""
         L = env.get("L", tm.sym("Len(es)"))
         x = self.g.sc.resolve(x, keep=[self.es])
+        ml = rules.memo_lookup(self.g.fn.node, self.g.sc, x)
+        if ml is not None and txt(self.g.sc.resolve(ml[1], keep=[self.es])) == txt(self.g.sc.resolve(ml[2].targets[0].slice, keep=[self.es])):
+            x = self.g.sc.resolve(ml[2].value, keep=[self.es])  # value served from a memo table: its length is the stored value's
         if isinstance(x, ast.Name) and x.id == self.es:
             return L
         if isinstance(x, ast.Call) and x is not None and astx.same(x, self.build_call):
@@ -286,6 +289,15 @@ def run(ctx):
                     if c and c[0] == "topologies":
                         arg = c[2]
                         a = arg
+                        ml = rules.memo_lookup(fn.node, g.sc, g.sc.resolve(a, keep=[es]))
+                        if ml is not None:
+                            D, key, store = ml
+                            gaps = rules.memo_key_gaps(g.sc, D, store)
+                            if gaps:
+                                o5.violated(fn, store, f"names are served from the memo table `{D}`, whose entry `{txt(store)}` depends on the loop variable(s) {gaps} but is keyed by "
+                                                       f"`{txt(store.targets[0].slice)}` only: a later topology with an equal key inherits an earlier topology's names")
+                                continue
+                            a = store.value
                         if isinstance(a, ast.BinOp) and isinstance(a.op, ast.Mult):
                             a = a.left if isinstance(a.left, ast.List) else a.right
                         elems = a.elts if isinstance(a, ast.List) else [a]
